@@ -15,6 +15,8 @@ func init() {
 				J("H_C05_sqrt", o, "fx", 0, "p", 5), J("H_C05_sqrt", o, "fx", 0, "p", 5, "p0", 1), J("H_C05_sqrt", o, "fx", 2, "p", 5), J("H_C05_sqrt", o, "fx", 2, "neg", 1), J("H_C05_sqrt", o, "fx", 1, "neg", 1),
 				J("H_C05_sqrt", o, "fx", 1, "w", 1, "p", 5, "stubs", 1), J("H_C05_sqrt", o, "fx", 1, "w", 1, "p", 30, "stubs", 1), J("H_C05_sqrt", o, "fx", 1, "w", 2, "p0", 1, "stubs", 1),
 				J("H_C05_sqrt", o, "fx", 1, "w", 1, "p", 19, "zf", 1, "stubs", 1), J("H_C05_sqrt", o, "fx", 1, "w", 2, "p", 3, "zf", 2, "stubs", 1),
+				// the receiver is the operand itself
+				J("H_C05_alias", o, "w", 1, "stubs", 1), J("H_C05_alias", o, "w", 2, "px", 25, "stubs", 1),
 			}
 			if tier == "thorough" {
 				for _, p := range []int{1, 2, 18, 20, 37, 38, 39, 57} {
@@ -50,25 +52,32 @@ func init() {
 			jobs = append(jobs, J("H_C06_sqr", o, "m", 1), J("H_C06_sqr", o, "m", 2), J("H_C06_sqr", o, "m", 3), J("H_C06_sqr", o, "m", 2, "bst", 2))
 			// division: comparison shortcut, single-word divisor
 			jobs = append(jobs, J("H_C06_div", o, "m", 1, "n", 1), J("H_C06_div", o, "m", 2, "n", 1), J("H_C06_div", o, "m", 3, "n", 1), J("H_C06_div", o, "m", 1, "n", 2))
+			// multi-word divisors (divLarge: scaling, Knuth D with add-back, un-scaling): concrete divisors from
+			// the extremal pattern list, arbitrary dividends
+			for _, pat := range [][2]int{{4, 2}, {4, 3}, {0, 2}, {4, 4}, {1, 6}} {
+				jobs = append(jobs, J("H_C06_divpat", o, "n", 2, "m", 3, "v0", pat[0], "v1", pat[1]), J("H_C06_divpat", o, "n", 2, "m", 2, "v0", pat[0], "v1", pat[1]))
+			}
+			jobs = append(jobs, J("H_C06_divpat", o, "n", 3, "m", 4, "v0", 4, "v1", 4, "v2", 2), J("H_C06_divpat", o, "n", 3, "m", 3, "v0", 0, "v1", 4, "v2", 3))
 			// results do not depend on the thresholds: same query under two assignments
 			jobs = append(jobs, J("H_C06_thresh", o, "m", 2, "n", 2))
 			if tier == "thorough" {
 				jobs = append(jobs, J("H_C06_mul", o, "m", 5, "n", 4), J("H_C06_mul", o, "m", 6, "n", 6), J("H_C06_mul", o, "m", 3, "n", 2, "kt", 2), J("H_C06_mul", o, "m", 3, "n", 3, "kt", 2),
-					J("H_C06_sqr", o, "m", 4), J("H_C06_sqr", o, "m", 3, "bst", 2), J("H_C06_div", o, "m", 4, "n", 1), J("H_C06_div", o, "m", 2, "n", 3))
+					J("H_C06_sqr", o, "m", 4), J("H_C06_sqr", o, "m", 3, "bst", 2), J("H_C06_div", o, "m", 4, "n", 1), J("H_C06_div", o, "m", 2, "n", 3),
+					J("H_C06_divpat", o, "n", 2, "m", 4, "v0", 4, "v1", 2), J("H_C06_divpat", o, "n", 2, "m", 4, "v0", 5, "v1", 3), J("H_C06_divpat", o, "n", 3, "m", 5, "v0", 4, "v1", 4, "v2", 2))
 			}
 			return jobs
 		},
 		Bounds: map[string]string{
-			"quick":    "dec.mul: schoolbook 1x1..4x4 words, Karatsuba (threshold variable lowered to 2) at 2x2; dec.sqr: 1-3 words via mul10WW/decBasicMul, decBasicSqr (threshold lowered) at 2 words; dec.div: dividend shorter than divisor, and single-word divisors with 1-3 word dividends (divW/div10VWW); threshold independence at 2x2. All word values (< 10^19), including whole-word runs of 0s and 9s.",
+			"quick":    "dec.mul: schoolbook 1x1..4x4 words, Karatsuba (threshold variable lowered to 2) at 2x2; dec.sqr: 1-3 words via mul10WW/decBasicMul, decBasicSqr (threshold lowered) at 2 words; dec.div: dividend shorter than divisor, single-word divisors with 1-3 word dividends (divW/div10VWW), and 2- and 3-word divisors taken from a list of extremal patterns (top word D/2, D/2+1, D-1, 7e18; lower words D-1, 0, 1, ...) with ARBITRARY dividends of up to one more word than the divisor + 1 (divLarge scaling, divBasic quotient-digit estimation, correction loop, add-back, un-scaling); threshold independence at 2x2. All word values (< 10^19), including whole-word runs of 0s and 9s.",
 			"thorough": "dec.mul up to 6x6 schoolbook and 3x3 Karatsuba incl. the unbalanced loop; decBasicSqr at 3 words; divisors of 1 word with 4-word dividends.",
 		},
 		Outside: []string{
-			"dec.div with divisors of two or more words (divLarge/divBasic/divRecursive): the quotient-digit estimation of Knuth's algorithm D needs an invariant cut at the loop head (DESIGN 2.4) that this engine does not implement yet; without it the exploration does not terminate within the budget. NOT CLAIMED. Consequence: C01's Quo jobs with multi-word divisors rest on the dec.div contract as an assumption.",
+			"dec.div with SYMBOLIC divisors of two or more words: the obligations come back unknown (no loop-head invariant cuts, DESIGN 2.4); multi-word divisors are covered only for the concrete extremal patterns listed in the bounds. Consequence: C01's Quo jobs with symbolic multi-word divisors rest on the dec.div contract as an assumption. divRecursive (threshold constant 100) is not reached.",
 			"operand sizes at the real tuning thresholds (30/10/50/100 words): the algorithms are covered structurally by lowering the threshold variables",
 		},
 		Assumptions: []string{"operands are normalised decs with words below 10^19", "kernel contracts decDigits64, magic.div, div10W_g proved by C07's check", archNote},
 		LevelText:   "Bounded symbolic model checking at the natural-number layer: value(z) == value(x)*value(y) (expanded into word products, the same monomials the kernels produce), squares likewise, u == q*v + r with 0 <= r < v for one-word divisors; every output word below the base and normalised; no panic. These identities are the contracts that C01/C02 use for multi-word Mul/Quo.",
-		LevelNote:   "Partial: multi-word divisors are not covered. " + trusted,
+		LevelNote:   "Partial: multi-word divisors only for concrete extremal patterns. " + trusted,
 		Timeout:     map[string]time.Duration{"quick": 120 * time.Second, "thorough": 600 * time.Second},
 	})
 }
